@@ -1,4 +1,5 @@
 import Nv.Proofs.C08Chain
+import Nv.Proofs.C08Len
 /-!
 C08 — property theorems for `bitmap1024` (model: `Nv.Model.C08`; proofs: `Nv/Proofs/C08*.lean`).
 
@@ -13,7 +14,9 @@ Index — clause of the property statement ↦ theorem(s):
       `setI32_spec`, `unsetI32_spec`, `setI16_spec`, `unsetI16_spec` (1024-bit), `set64_spec`, `unset64_spec` (64-bit layer)
 * "out-of-range indices (negative or >= 1024) are ignored" .. same four `…_spec` (the `decide (0 ≤ i ∧ i < 1024 ∧ …)` term),
       `setI32_out_of_range`; 64-bit layer (> 63): `set64_spec`, `unset64_spec`
-* "Len/NLen count members and non-members" ................. `len_nlen`, `nlen_eq` (1024-bit), `len64_spec`, `full64_spec` (64-bit)
+* "Len/NLen count members and non-members" ................. `len_nlen`, `nlen_eq` (1024-bit), `len64_spec`, `full64_spec` (64-bit);
+      `len_setI32`, `len_unsetI32`, `len_setI16`, `len_unsetI16` (±1 exactly when membership changes), `setI32_history`,
+      `setI16_history` (whole set histories never lose a member)
 * "And/Or/Reverse/OrThenReverse/Equal are ∩, ∪, complement, complement-of-union, equality"
       `and_or_rev_equal` (all five), `equal1024_spec`, `orThenReverse_eq`, `reverse_reverse`; 64-bit layer `algebra64`
 * "every iterator, every width, forward or reverse, writes exactly the first min(n, Len) members in ascending (descending)
@@ -126,6 +129,103 @@ theorem len_nlen (b : Bit1024) :
   constructor
   · exact len1024_eq b
   · omega
+
+/-! ### how `Len` moves under set / unset; whole set histories -/
+
+/-- a bitmap that gained exactly index `k`: `Len` grows by one unless `k` was a member -/
+theorem len_gain (b b' : Bit1024) (k : Nat) (hk : k < 1024)
+    (h : ∀ j, mem1024 b' j = (mem1024 b j || decide (k = j))) :
+    len1024 b' = len1024 b + (if mem1024 b k then 0 else 1) := by
+  rw [len1024_eq, len1024_eq]
+  unfold members1024
+  have : (List.range 1024).filter (mem1024 b') = (List.range 1024).filter (fun j => mem1024 b j || decide (k = j)) :=
+    List.filter_congr (fun j _ => h j)
+  rw [this, filter_add_one (mem1024 b) k 1024 hk]
+
+/-- a bitmap that lost exactly index `k`: `Len` shrinks by one iff `k` was a member -/
+theorem len_loss (b b' : Bit1024) (k : Nat) (hk : k < 1024)
+    (h : ∀ j, mem1024 b' j = (mem1024 b j && !decide (k = j))) :
+    len1024 b' + (if mem1024 b k then 1 else 0) = len1024 b := by
+  rw [len1024_eq, len1024_eq]
+  unfold members1024
+  have : (List.range 1024).filter (mem1024 b') = (List.range 1024).filter (fun j => mem1024 b j && !decide (k = j)) :=
+    List.filter_congr (fun j _ => h j)
+  rw [this, filter_remove_one (mem1024 b) k 1024 hk]
+
+/-- `Len` after `SetI32` (all 2^32 arguments): +1 exactly when the index is in range and was not a member -/
+theorem len_setI32 (b : Bit1024) (i : BitVec 32) :
+    len1024 (setI32 b i) =
+      len1024 b + (if 0 ≤ i.toInt ∧ i.toInt < 1024 ∧ mem1024 b i.toInt.toNat = false then 1 else 0) := by
+  by_cases hz : 0 ≤ i.toInt ∧ i.toInt < 1024
+  · rw [len_gain b (setI32 b i) i.toInt.toNat (by omega)
+      (fun j => by rw [setI32_mem, decide_range_eq i.toInt hz j])]
+    cases hm : mem1024 b i.toInt.toNat <;> simp [hz]
+  · rw [setI32_out_of_range b i hz]
+    have : ¬(0 ≤ i.toInt ∧ i.toInt < 1024 ∧ mem1024 b i.toInt.toNat = false) := fun h => hz ⟨h.1, h.2.1⟩
+    simp [this]
+
+/-- `Len` after `UnsetI32`: −1 exactly when the index is in range and was a member -/
+theorem len_unsetI32 (b : Bit1024) (i : BitVec 32) :
+    len1024 (unsetI32 b i) + (if 0 ≤ i.toInt ∧ i.toInt < 1024 ∧ mem1024 b i.toInt.toNat = true then 1 else 0) = len1024 b := by
+  by_cases hz : 0 ≤ i.toInt ∧ i.toInt < 1024
+  · have := len_loss b (unsetI32 b i) i.toInt.toNat (by omega)
+      (fun j => by rw [unsetI32_mem, decide_range_eq i.toInt hz j])
+    cases hm : mem1024 b i.toInt.toNat <;> simp [hz, hm] at this ⊢ <;> omega
+  · have hb : unsetI32 b i = b := by
+      apply ext1024
+      intro j _
+      rw [unsetI32_mem]
+      have : ¬(0 ≤ i.toInt ∧ i.toInt < 1024 ∧ i.toInt = (j : Int)) := fun hh => hz ⟨hh.1, hh.2.1⟩
+      simp [this]
+    have : ¬(0 ≤ i.toInt ∧ i.toInt < 1024 ∧ mem1024 b i.toInt.toNat = true) := fun h => hz ⟨h.1, h.2.1⟩
+    rw [hb]; simp [this]
+
+theorem len_setI16 (b : Bit1024) (i : BitVec 16) :
+    len1024 (setI16 b i) =
+      len1024 b + (if 0 ≤ i.toInt ∧ i.toInt < 1024 ∧ mem1024 b i.toInt.toNat = false then 1 else 0) := by
+  by_cases hz : 0 ≤ i.toInt ∧ i.toInt < 1024
+  · rw [len_gain b (setI16 b i) i.toInt.toNat (by omega)
+      (fun j => by rw [setI16_mem, decide_range_eq i.toInt hz j])]
+    cases hm : mem1024 b i.toInt.toNat <;> simp [hz]
+  · have hb : setI16 b i = b := by
+      apply ext1024
+      intro j _
+      rw [setI16_mem]
+      have : ¬(0 ≤ i.toInt ∧ i.toInt < 1024 ∧ i.toInt = (j : Int)) := fun hh => hz ⟨hh.1, hh.2.1⟩
+      simp [this]
+    have : ¬(0 ≤ i.toInt ∧ i.toInt < 1024 ∧ mem1024 b i.toInt.toNat = false) := fun h => hz ⟨h.1, h.2.1⟩
+    rw [hb]; simp [this]
+
+theorem len_unsetI16 (b : Bit1024) (i : BitVec 16) :
+    len1024 (unsetI16 b i) + (if 0 ≤ i.toInt ∧ i.toInt < 1024 ∧ mem1024 b i.toInt.toNat = true then 1 else 0) = len1024 b := by
+  by_cases hz : 0 ≤ i.toInt ∧ i.toInt < 1024
+  · have := len_loss b (unsetI16 b i) i.toInt.toNat (by omega)
+      (fun j => by rw [unsetI16_mem, decide_range_eq i.toInt hz j])
+    cases hm : mem1024 b i.toInt.toNat <;> simp [hz, hm] at this ⊢ <;> omega
+  · have hb : unsetI16 b i = b := by
+      apply ext1024
+      intro j _
+      rw [unsetI16_mem]
+      have : ¬(0 ≤ i.toInt ∧ i.toInt < 1024 ∧ i.toInt = (j : Int)) := fun hh => hz ⟨hh.1, hh.2.1⟩
+      simp [this]
+    have : ¬(0 ≤ i.toInt ∧ i.toInt < 1024 ∧ mem1024 b i.toInt.toNat = true) := fun h => hz ⟨h.1, h.2.1⟩
+    rw [hb]; simp [this]
+
+/-- a whole history of `SetI32` calls, of any length and in any order (so also when `Len` passes through every value
+    0…1024): the members afterwards are the old ones plus exactly the in-range arguments — nothing is ever dropped -/
+theorem setI32_history (l : List (BitVec 32)) (b : Bit1024) (j : Nat) :
+    mem1024 (l.foldl setI32 b) j =
+      (mem1024 b j || l.any (fun i => decide (0 ≤ i.toInt ∧ i.toInt < 1024 ∧ i.toInt = (j : Int)))) := by
+  induction l generalizing b with
+  | nil => simp
+  | cons i l ih => rw [List.foldl_cons, ih, setI32_mem, List.any_cons, Bool.or_assoc]
+
+theorem setI16_history (l : List (BitVec 16)) (b : Bit1024) (j : Nat) :
+    mem1024 (l.foldl setI16 b) j =
+      (mem1024 b j || l.any (fun i => decide (0 ≤ i.toInt ∧ i.toInt < 1024 ∧ i.toInt = (j : Int)))) := by
+  induction l generalizing b with
+  | nil => simp
+  | cons i l ih => rw [List.foldl_cons, ih, setI16_mem, List.any_cons, Bool.or_assoc]
 
 /-! ### And / Or / Reverse / OrThenReverse / Equal are ∩, ∪, complement, complement of ∪, equality -/
 
